@@ -597,11 +597,18 @@ def _process_internal_events_without_default_matchers(
 
             flow_id = arguments.pop("flow_id", None)
             deactivate = arguments.pop("deactivate", False)
-            arguments.pop("source_flow_instance_uid", None)
+            source_flow_instance_uid = arguments.pop("source_flow_instance_uid", None)
             arguments.pop("source_head_uid", None)
             if flow_id in state.flow_id_states:
-                for flow_state in state.flow_id_states[flow_id]:
+                for flow_state in list(state.flow_id_states[flow_id]):
+                    if deactivate and _is_child_activated_flow(state, flow_state):
+                        # The reference instance decides about the restarted instances
+                        continue
                     if arguments.items() <= flow_state.arguments.items():
+                        if deactivate:
+                            _release_activation(
+                                state, flow_state, source_flow_instance_uid
+                            )
                         _finish_flow(
                             state,
                             flow_state,
@@ -629,11 +636,18 @@ def _process_internal_events_without_default_matchers(
             arguments = dict(event.arguments)
             flow_id = arguments.pop("flow_id", None)
             deactivate = arguments.pop("deactivate", False)
-            arguments.pop("source_flow_instance_uid", None)
+            source_flow_instance_uid = arguments.pop("source_flow_instance_uid", None)
             arguments.pop("source_head_uid", None)
             if flow_id in state.flow_id_states:
-                for flow_state in state.flow_id_states[flow_id]:
+                for flow_state in list(state.flow_id_states[flow_id]):
+                    if deactivate and _is_child_activated_flow(state, flow_state):
+                        # The reference instance decides about the restarted instances
+                        continue
                     if arguments.items() <= flow_state.arguments.items():
+                        if deactivate:
+                            _release_activation(
+                                state, flow_state, source_flow_instance_uid
+                            )
                         _abort_flow(
                             state=state,
                             flow_state=flow_state,
@@ -1479,6 +1493,19 @@ def _start_flow(state: State, flow_state: FlowState, event_arguments: dict) -> N
             )
 
 
+def _release_activation(
+    state: State, flow_state: FlowState, activator_uid: Optional[str]
+) -> None:
+    """The activator gives up its activation explicitly, so it must not give it up again when it ends."""
+    if (
+        activator_uid in state.flow_states
+        and _is_reference_activated_flow(state, flow_state)
+        and flow_state.activated > 1
+        and flow_state.uid in state.flow_states[activator_uid].child_flow_uids
+    ):
+        state.flow_states[activator_uid].child_flow_uids.remove(flow_state.uid)
+
+
 def _abort_flow(
     state: State,
     flow_state: FlowState,
@@ -1542,6 +1569,7 @@ def _abort_flow(
         flow_state.activated == 0
         and flow_state.parent_uid
         and flow_state.parent_uid in state.flow_states
+        and flow_state.uid in state.flow_states[flow_state.parent_uid].child_flow_uids
     ):
         state.flow_states[flow_state.parent_uid].child_flow_uids.remove(flow_state.uid)
 
@@ -1660,6 +1688,7 @@ def _finish_flow(
         flow_state.activated == 0
         and flow_state.parent_uid
         and flow_state.parent_uid in state.flow_states
+        and flow_state.uid in state.flow_states[flow_state.parent_uid].child_flow_uids
     ):
         state.flow_states[flow_state.parent_uid].child_flow_uids.remove(flow_state.uid)
 
